@@ -50,6 +50,11 @@ class Observer:
         if name == "updated":
             self._cur = {"t": k}
             self.steps.append(self._cur)
+        elif self._cur is None or self._cur["t"] != k:
+            # the main loop reached a later phase of step k without having called the update for it: the step still gets a
+            # record, with the state found now standing in for the (missing) updated phase, so that the oracles see the step
+            self._cur = {"t": k, "updated": snap(M), "update_missing": True}
+            self.steps.append(self._cur)
         if name in self.want and self._cur is not None:
             self._cur[name] = snap(M)
         if self.inject is not None and self.inject[0] == k and self.inject[1] == name:
